@@ -3317,8 +3317,15 @@ class LazyStackedTensorDict(TensorDictBase):
                     *self.tensordicts, stack_dim=dim1, stack_dim_name=self._td_dim_name
                 )
             else:
+                # the member dim that lands on dim0 is dim1 - 1; the dims in between shift by one
+                perm = [
+                    *range(dim0),
+                    dim1 - 1,
+                    *range(dim0, dim1 - 1),
+                    *range(dim1, self.ndim - 1),
+                ]
                 result = type(self)(
-                    *(td.transpose(dim0, dim1 - 1) for td in self.tensordicts),
+                    *(td.permute(perm) for td in self.tensordicts),
                     stack_dim=dim1,
                     stack_dim_name=self._td_dim_name,
                 )
@@ -3330,8 +3337,15 @@ class LazyStackedTensorDict(TensorDictBase):
                     *self.tensordicts, stack_dim=dim0, stack_dim_name=self._td_dim_name
                 )
             else:
+                # member dim dim0 lands on dim1 - 1; the dims in between shift by one
+                perm = [
+                    *range(dim0),
+                    *range(dim0 + 1, dim1),
+                    dim0,
+                    *range(dim1, self.ndim - 1),
+                ]
                 result = type(self)(
-                    *(td.transpose(dim0 + 1, dim1) for td in self.tensordicts),
+                    *(td.permute(perm) for td in self.tensordicts),
                     stack_dim=dim0,
                     stack_dim_name=self._td_dim_name,
                 )
